@@ -112,6 +112,7 @@ func vC07Gate(name string) {
 type vC07State struct {
 	Exists bool       `json:"exists"`
 	Isr    []string   `json:"isr"`
+	Pisr   []string   `json:"pisr"` // the persisted copy (protobuf Partition.Isr)
 	Leader string     `json:"leader"`
 	LEpoch int64      `json:"lepoch"`
 	PEpoch int64      `json:"pepoch"`
@@ -191,9 +192,14 @@ func (r *vC07Run) state() vC07State {
 	leader, le := r.p.GetLeader()
 	isr := r.p.GetISR()
 	sort.Strings(isr)
+	r.p.mu.RLock()
+	pisr := append([]string{}, r.p.Isr...)
+	r.p.mu.RUnlock()
+	sort.Strings(pisr)
 	st := vC07State{
 		Exists: r.srv.metadata.GetPartition(r.stream, 0) != nil,
 		Isr:    isr,
+		Pisr:   pisr,
 		Leader: leader,
 		LEpoch: int64(le),
 		PEpoch: int64(r.p.GetEpoch()),
@@ -230,6 +236,8 @@ func vC07ErrClass(st *status.Status) string {
 		return "nocand"
 	case st.Code() == codes.NotFound:
 		return "nostream"
+	case st.Code() == codes.Internal && strings.HasPrefix(msg, "Failed to "):
+		return "raft" // the Raft entry could not be replicated (deadline over)
 	}
 	return "other:" + st.Code().String() + ":" + msg
 }
@@ -284,6 +292,19 @@ func (r *vC07Run) step(step map[string]interface{}) (ev vC07Event, ok bool) {
 	obs := vC07Obs{A: a}
 	ctx, cancel := context.WithTimeout(context.Background(), vC07Deadline)
 	defer cancel()
+	// fault "no Raft entry can be replicated for this request": the request arrives
+	// with its deadline already over (every Raft proposal of the call times out)
+	okFlag := true
+	if v, has := step["ok"]; has {
+		okFlag = v.(bool)
+	}
+	reqCtx := ctx
+	if !okFlag {
+		c3, cancel3 := context.WithDeadline(context.Background(), time.Now().Add(-time.Hour))
+		defer cancel3()
+		reqCtx = c3
+	}
+	faultMissed := false
 	expire := false
 	t0 := time.Now()
 	defer func() { vC07Stat(a, time.Since(t0)) }()
@@ -299,11 +320,16 @@ func (r *vC07Run) step(step map[string]interface{}) (ev vC07Event, ok bool) {
 			l, e := r.pair(ps)
 			args["w"], args["ps"], args["l"], args["e"] = w, ps, l, int64(e)
 			args["pref"] = vStrDef(step, "pref", "none")
+			args["ok"] = okFlag
 			r.prefer(vStrDef(step, "pref", "none"))
+			_, leBefore := r.p.GetLeader()
 			start := time.Now()
-			st := r.srv.metadata.ReportLeader(ctx, &proto.ReportLeaderOp{
+			st := r.srv.metadata.ReportLeader(reqCtx, &proto.ReportLeaderOp{
 				Stream: r.stream, Partition: 0, Replica: w, Leader: l, LeaderEpoch: e})
 			obs.Err = vC07ErrClass(st)
+			if _, leAfter := r.p.GetLeader(); !okFlag && leAfter != leBefore {
+				faultMissed = true // the proposal got through although its deadline was over
+			}
 			if obs.Err == "" {
 				// an accepted report (re)arms the entry's timer, at the earliest at `start`
 				r.armStart = start
@@ -411,15 +437,46 @@ func (r *vC07Run) step(step map[string]interface{}) (ev vC07Event, ok bool) {
 				obs.A, a = "Skip", "Skip"
 				return
 			}
+			args["ok"] = okFlag
 			var st *status.Status
 			if a == "Shrink" {
-				st = r.srv.metadata.ShrinkISR(ctx, &proto.ShrinkISROp{
+				st = r.srv.metadata.ShrinkISR(reqCtx, &proto.ShrinkISROp{
 					Stream: r.stream, Partition: 0, ReplicaToRemove: rep, Leader: l, LeaderEpoch: e})
 			} else {
-				st = r.srv.metadata.ExpandISR(ctx, &proto.ExpandISROp{
+				st = r.srv.metadata.ExpandISR(reqCtx, &proto.ExpandISROp{
 					Stream: r.stream, Partition: 0, ReplicaToAdd: rep, Leader: l, LeaderEpoch: e})
 			}
 			obs.Err = vC07ErrClass(st)
+			if !okFlag && obs.Err == "" {
+				faultMissed = true
+			}
+		case "Rebuild":
+			// rebuild the partition object from its persisted form: pause the stream
+			// (real PauseStream) and resume it (real RESUME_STREAM entry through Raft;
+			// ResumeStream itself would then wait for the fictitious leader's status)
+			if len(r.pend) > 0 {
+				obs.A, a = "Skip", "Skip" // outside the domain
+				return
+			}
+			st := r.srv.metadata.PauseStream(ctx, &proto.PauseStreamOp{Stream: r.stream})
+			obs.Err = vC07ErrClass(st)
+			if st != nil {
+				return
+			}
+			op := &proto.RaftLog{Op: proto.Op_RESUME_STREAM,
+				ResumeStreamOp: &proto.ResumeStreamOp{Stream: r.stream, Partitions: []int32{0}}}
+			future, err := r.srv.getRaft().applyOperation(ctx, op, r.srv.metadata.checkResumeStreamPreconditions)
+			if err == nil {
+				err = future.Error()
+			}
+			if err != nil {
+				obs.Err = "other:resume:" + err.Error()
+				return
+			}
+			if np := r.srv.metadata.GetPartition(r.stream, 0); np != nil {
+				r.p = np
+			}
+			r.armStart = time.Time{}
 		case "Expire":
 			expire = true
 			r.expire()
@@ -449,6 +506,9 @@ func (r *vC07Run) step(step map[string]interface{}) (ev vC07Event, ok bool) {
 	ok = true
 	if !expire && !r.armStart.IsZero() && time.Since(r.armStart) > vC07Timeout*6/10 {
 		ok = false
+	}
+	if faultMissed {
+		ok = false // the injected fault did not take: repeat the behaviour
 	}
 	if !st.Fo.On {
 		r.armStart = time.Time{}
